@@ -15,6 +15,20 @@ pub(crate) enum Resolve<Out> {
 // ANCHOR_END: resolve
 
 impl<Out> Resolve<Out> {
+    /// Arity discriminant for contracts: 0 = Never, 1 = Once, 2 = Many (verification only)
+    #[cfg(kani)]
+    pub(crate) fn kind(&self) -> u8 {
+        match self {
+            Resolve::Never => 0,
+            Resolve::Once(_) => 1,
+            Resolve::Many(_) => 2,
+        }
+    }
+
+    #[cfg_attr(kani, kani::modifies(self))]
+    #[cfg_attr(kani, kani::ensures(|r| old(self.kind()) != 0 || (matches!(r, Err(ResolveError::Never)) && self.kind() == 0)))]
+    #[cfg_attr(kani, kani::ensures(|r| old(self.kind()) != 1 || (r.is_ok() && self.kind() == 0)))]
+    #[cfg_attr(kani, kani::ensures(|r| old(self.kind()) != 2 || (self.kind() == 2 && matches!(r, Ok(()) | Err(ResolveError::FinishedMany)))))]
     pub fn resolve(&mut self, output: Out) -> Result<(), ResolveError> {
         match self {
             Resolve::Never => Err(ResolveError::Never),
